@@ -533,7 +533,7 @@ func runC09_5(c *core.Ctx) {
 		if isFresh(fa.Base) {
 			continue
 		}
-		fnName := fa.Fn.Name()
+		fnName := ssaName(fa.Fn)
 		if writers[fnName] == nil {
 			writers[fnName] = map[string]bool{}
 		}
@@ -547,17 +547,17 @@ func runC09_5(c *core.Ctx) {
 	}
 	// observers: no direct write and no call to a writer (static callees in the package)
 	for _, fn := range s.ModFuncs {
-		if fn.Pkg == nil || fn.Pkg.Pkg.Path() != core.ModPath+"/"+a.pk || fn.Signature.Recv() == nil || !observers[fn.Name()] {
+		if fn.Pkg == nil || fn.Pkg.Pkg.Path() != core.ModPath+"/"+a.pk || fn.Signature.Recv() == nil || !observers[ssaName(fn)] {
 			continue
 		}
 		bad := ""
-		if len(writers[fn.Name()]) > 0 {
+		if len(writers[ssaName(fn)]) > 0 {
 			bad = "writes a field directly"
 		}
 		for _, b := range fn.Blocks {
 			for _, in := range b.Instrs {
 				if ci, ok := in.(ssa.CallInstruction); ok {
-					if callee := ci.Common().StaticCallee(); callee != nil && callee.Pkg == fn.Pkg && len(writers[callee.Name()]) > 0 && callee.Signature.Recv() != nil {
+					if callee := ci.Common().StaticCallee(); callee != nil && callee.Pkg == fn.Pkg && len(writers[ssaName(callee)]) > 0 && callee.Signature.Recv() != nil {
 						bad = "calls " + callee.Name() + ", which writes Buffer fields"
 					}
 				}
